@@ -1752,6 +1752,8 @@ class connector( client ):
             log.normal( line )
             if printing:
                 print( line )
+            if reply and reply.status and ( 'write_frag' in reply or 'write_tag' in reply ):
+                val		= None # a refused write has no value; its data was only used for the line
             yield index,descr,request,reply,status,val
 
     # 
